@@ -429,6 +429,11 @@ struct Dumper {
       }
       String name;
       InstAPI::inst_id_to_string(b.arch, inst->inst_id(), InstStringifyOptions::kNone, name);
+      if (!b.is_x86()) {   // AArch64: the condition code is part of the instruction id, not of the printed mnemonic
+        static const char* ccn[] = {"al", "na", "eq", "ne", "hs", "lo", "mi", "pl", "vs", "vc", "hi", "ls", "ge", "lt", "gt", "le"};
+        uint32_t cc = uint32_t(BaseInst::extract_arm_cond_code(inst->inst_id()));
+        if (cc >= 2 && cc < 16) { name.append("."); name.append(ccn[cc]); }
+      }
       uint32_t cf = 0;
       if (b.is_x86()) cf = uint32_t(x86::InstDB::inst_info_by_id(inst->inst_id()).control_flow());
       else {
